@@ -97,6 +97,15 @@ var c08ArgShapes = []string{
 	"echo hi",
 	fmt.Sprintf("tests/prepackage"),
 	fmt.Sprintf("%q %q", canaryDir+"/new.txt", "content"),
+	// a callable, a count and a path in various positions (profiling / logging / output-file style options)
+	fmt.Sprintf("(fn [] 1) 1 %q", canaryDir+"/new.txt"),
+	fmt.Sprintf("(fn [] 1) %q", canaryDir+"/new.txt"),
+	fmt.Sprintf("%q (fn [] 1) 1", canaryDir+"/new.txt"),
+	fmt.Sprintf("1 %q", canaryDir+"/new.txt"),
+	fmt.Sprintf("1 2 %q", canaryFile),
+	fmt.Sprintf("(hash file: %q) 1", canaryDir+"/new.txt"),
+	fmt.Sprintf("%q 1 2 3", canaryFile),
+	fmt.Sprintf("nil %q", canaryFile),
 }
 
 var c08Routes = []string{"direct", "alias", "apply", "map", "eval", "macro", "infix", "thread", "dot"}
